@@ -1,19 +1,28 @@
 """C06 — pipelines keep moving and heal themselves after restarts and stalls."""
 import logging
 from ..core import Violation
-from .. import pipeline, mqnet, protocol
+from .. import pipeline, mqnet, protocol, pairfeed
 
 ID = 'C06'
-MODULES = ['OFModel.Zmq.Receiver', 'OFModel.Zmq.Sender', 'OFModel.Gen.Facts']
+MODULES = ['OFModel.Zmq.Receiver', 'OFModel.Zmq.Sender', 'OFModel.Zmq.Pair', 'OFModel.Gen.Facts']
+PROP_FILES = ['C06', 'PairRecv', 'PairSend', 'C06Live']
 LEVEL = 'proof'
-RULE = ('MQNet fault campaign on chain / tee / tee-rejoin pipelines with an endless source: victim = every filter in turn (source, relay, sink; required and not required), '
+RULE = ('(1) closed pair (OFProps/C06Live.lean): a REAL ZMQSender and a REAL ZMQReceiver wired through fakezmq run random schedules of send | recv | restart consumer | restart publisher '
+        '(graceful or crash, anywhere), compared event by event with the Lean model OF.Pair (messages published, requests pushed, sets returned, client table, ids, buffers, channel lengths), '
+        'followed by the constant healing schedule of theorem C06_pair_recovers_const (3 sends now, 1 recv, 4 rounds [send; recv] one connection time-out later - the time-out read off the real client table); oracle: the real consumer returns a new frame set within these 12 events '
+        'and ids per consumer incarnation stay strictly increasing.  '
+        '(2) MQNet fault campaign on chain / tee / tee-rejoin pipelines with an endless source: victim = every filter in turn (source, relay, sink; required and not required), '
         'fault = kill at a random virtual time + restart after {0, 0.3, 1, 7 s} | kill for ever (non-required consumer) | stall for 0.5-8 s; delays 0-60 ms. '
         'Oracle (exploration): within 15 virtual seconds after the fault ends every live sink has been handed a new frame, and sequence numbers stay strictly increasing at every node. '
-        'Plus the adversarial feeds of C01/C02 for the component tie.  non-trivial = a run in which the victim was hit while frames were flowing')
-ASSUMPTIONS = ['partial by nature: the Lean theorems are the schedule-independent unstick lemmas (re-request, handshake, fast-forward, newer-id adoption, eviction, required-output wait); '
-               'system liveness / "within a bounded time" is explored on MQNet, not proved',
-               'MQNet drops requests sent to a dead peer (libzmq would queue them up to the HWM and deliver them after the reconnect)', 'libzmq reconnect timing and OS scheduling are not modelled']
-TRUSTED = ['MQNet event loop and fault injection (harness/ofverif/mqnet.py)']
+        'Plus the adversarial feeds of C01/C02 for the component tie.  non-trivial = a run in which the victim was hit while frames were flowing / a pair schedule with at least one restart')
+ASSUMPTIONS = ['partial by nature: proved are the schedule-independent unstick lemmas (re-request, handshake, fast-forward, newer-id adoption, eviction, required-output wait) and, for the closed pair of one publisher '
+               'and one synchronised consumer, "no reachable deadlock": from every reachable state (any history, any restarts) an explicit continuation delivers a new frame (C06_pair_recovers), '
+               'within a constant 12 events = 5 polls + one connection time-out (C06_pair_recovers_const / C06_pair_recovery_bound_const, invariant Tight; 9 events when the request channel is empty; assuming nothing about channel contents: #queued requests + 9, C06_pair_recovers), ids strictly increasing per incarnation (C06_pair_order)',
+               'the pair model delivers messages immediately, loss-free and FIFO, and a restarted endpoint is reachable at once: libzmq connection establishment / reconnect timing and OS scheduling are not modelled '
+               '(the theorem assumes nothing about channel contents, so it also covers loss and stale traffic; it does assume the continuation itself is delivered)',
+               'liveness of longer pipelines (chains, tees, joins) / "within a bounded time" under fair scheduling is explored on MQNet, not proved',
+               'MQNet drops requests sent to a dead peer (libzmq would queue them up to the HWM and deliver them after the reconnect)']
+TRUSTED = ['MQNet event loop and fault injection (harness/ofverif/mqnet.py)', 'fake pyzmq surface harness/ofverif/fakezmq.py (in-process sockets, virtual clock) used by the pair rig']
 
 SEC = 1_000_000_000
 
@@ -80,12 +89,80 @@ def run_case(case):
     return v + v2, flowing_before
 
 
+def shrink_pair(trial, key, budget=80):
+    """Greedy event-dropping shrink of the prefix (the healing schedule is recomputed from the real state each time)."""
+    pre = trial['prefix']
+    i = 0
+    while i < len(pre) and budget > 0:
+        cand = {'prefix': pre[:i] + pre[i + 1:], 'heal': None}
+        budget -= 1
+        try:
+            if any(k == key for k, _ in pairfeed.oracles(cand, pairfeed.run_impl(cand))):
+                pre = cand['prefix']
+                continue
+        except Exception:
+            pass
+        i += 1
+    t = {'prefix': pre, 'heal': None}
+    pairfeed.run_impl(t)
+    return t
+
+
+def pair_campaign(ctx, n):
+    """Closed pair: real objects vs OF.Pair event by event + the recovery oracle on the implementation."""
+    logging.disable(logging.CRITICAL)
+    res, rng = ctx.result, ctx.rng
+    trials = [dict(c['trial'], heal=None) for c in ctx.corpus if c.get('feed') == 'pair']
+    if ctx.replay and ctx.replay.get('case', {}).get('feed') == 'pair':
+        trials = [dict(ctx.replay['case']['trial'])]; n = 0       # replay keeps the recorded healing schedule
+    for _ in range(n): trials.append({'prefix': pairfeed.gen_prefix(rng), 'heal': None})
+    obs = [pairfeed.run_impl(t) for t in trials]
+    model = ctx.driver.batch([pairfeed.model_request(t) for t in trials]) if ctx.driver else None
+    heal_len, first_rec, nat = {}, {}, {}
+    for idx, (t, o) in enumerate(zip(trials, obs)):
+        nfaults = sum(1 for e in t['prefix'] if e['k'] in ('rc', 'rp'))
+        nret = sum(1 for (ob, _) in o if ob['k'] == 'rcvd' for x in ob['outs'] if x['k'] == 'ret')
+        res.note({'feed': 'pair', 'prefix_events': len(t['prefix']), 'faults': nfaults, 'heal_events': len(t['heal']), 'returns': nret,
+                  'prefix_head': t['prefix'][:8]}, nontrivial=False)
+        if nfaults: res.nontrivial.add(f'pair:{ctx.seed}:{idx}:{len(t["prefix"])}:{nfaults}:{nret}')
+        heal_len[len(t['heal'])] = heal_len.get(len(t['heal']), 0) + 1
+        k = pairfeed.first_recovery_index(t, o)
+        first_rec[k] = first_rec.get(k, 0) + 1
+        for key, what in pairfeed.oracles(t, o)[:1]:
+            small = shrink_pair(t, key) if len(res.violations) < 3 else t
+            res.violations.append(Violation(key, what, {'feed': 'pair', 'trial': {k2: small[k2] for k2 in ('prefix', 'heal', 'prev_at_fault')}}))
+        if model is not None:
+            r = model[idx]
+            if 'err' in r:
+                res.disagreements.append({'point': 'pair.run', 'case': {'feed': 'pair', 'trial': t}, 'impl': None, 'model': r})
+                continue
+            m = pairfeed.canon_model(r)
+            io = [(a, b) for a, b in o]
+            if m != io:
+                ci = next((i for i, (a, b) in enumerate(zip(io, m)) if a != b), min(len(io), len(m)))
+                evs = t['prefix'] + t['heal']
+                res.disagreements.append({'point': f'pair event #{ci} ({evs[ci]["k"] if ci < len(evs) else "?"}): real ZMQSender/ZMQReceiver vs OF.Pair.step',
+                                          'case': {'feed': 'pair', 'trial': {k2: t[k2] for k2 in ('prefix', 'heal')}},
+                                          'impl': io[ci] if ci < len(io) else None, 'model': m[ci] if ci < len(m) else None})
+            else:
+                res.traces_validated += 1
+        if idx % 4 == 0:      # exploration: plain [recv; send] rounds one time-out later (no theorem behind this schedule)
+            kk = pairfeed.natural_rounds(t)
+            nat[kk] = nat.get(kk, 0) + 1
+    res.extra['pair_trials'] = len(trials)
+    res.extra['pair_heal_schedule_lengths'] = {str(k): v for k, v in sorted(heal_len.items())}
+    res.extra['pair_events_until_recovery'] = {str(k): v for k, v in sorted(first_rec.items(), key=lambda x: (x[0] is None, x[0]))}
+    res.extra['pair_natural_polls_until_recovery(exploration)'] = {str(k): v for k, v in sorted(nat.items(), key=lambda x: (x[0] is None, x[0]))}
+
+
 def run(ctx):
     logging.disable(logging.CRITICAL)
     res, rng = ctx.result, ctx.rng
+    pair_campaign(ctx, 6000 if ctx.thorough else (1200 if ctx.escalate else 500))
     n = 1000 if ctx.thorough else (150 if ctx.escalate else 40)
     cases = [c for c in ctx.corpus if 'faults' in c]
     if ctx.replay and ctx.replay.get('case', {}).get('faults'): cases = [ctx.replay['case']]; n = 0
+    if ctx.replay and ctx.replay.get('case', {}).get('feed') == 'pair': n = 0
     for _ in range(n): cases.append(gen_case(rng))
     kinds = {}
     for case in cases:
@@ -97,7 +174,8 @@ def run(ctx):
         for key, what in v[:1]: res.violations.append(Violation(key, what, case))
     res.extra['fault_kinds'] = kinds
     res.extra['exploration_runs'] = len(cases)
-    res.extra['level_detail'] = 'unstick lemmas proved; system liveness explored (MQNet fault campaign)'
+    res.extra['level_detail'] = ('unstick lemmas proved; closed pair (one publisher, one synchronised consumer): no reachable deadlock, explicit healing schedule, bound, order proved '
+                                 '(C06Live) and tied to the real classes event by event; liveness of longer pipelines explored (MQNet fault campaign)')
     # component tie (same automata as C01/C02)
     protocol.recv_campaign(ctx, 'C06', 300 if not ctx.thorough else 3000, ['wf', 'adv'])
     protocol.send_campaign(ctx, 'C06', 300 if not ctx.thorough else 3000, ['sync', 'adv'])
